@@ -139,6 +139,8 @@ type aObs struct {
 }
 
 func runAImpl(c ACase) (o aObs) {
+	guardEnter(c)
+	defer guardLeave()
 	done := make(chan struct{})
 	go func() {
 		defer close(done)
